@@ -63,4 +63,10 @@ with open(os.path.join(seeded, 'README.md'), 'w') as fh:
              '| change | property | what was changed | needs | reported by (quick tier) |\n|---|---|---|---|---|\n')
     for row in rows:
         fh.write('| %s | %s | %s | %s | %s |\n' % row)
+    nrep = sum(1 for r in rows if not r[4].startswith('not reported'))
+    fh.write('\n%d changes (two per property per round, five rounds: m1-m2, m3-m4, m5-m6, m7-m8, m9-m10); %d are reported by the owning '
+             'property\'s quick check at VERIF_SEED=1 on the final machinery; the other %d are explained in their row (NOTES.json): '
+             'seed dependent, thorough tier only, or deliberately outside the asserted domain.  Detection columns were produced by '
+             '`tools/seedeval.py` (scratch worktree of /repo HEAD + patch, `EON_REPO` pointing at it); how the checks were widened after '
+             'each round is in DESIGN.md sections 8.5-8.8.\n' % (len(rows), nrep, len(rows) - nrep))
 print('kept', len(rows))
